@@ -25,7 +25,7 @@ add(
 add(
     "C01",
     PBT + "an integer-arithmetic fidelity oracle and a mutate-then-reread ownership oracle, on all three backends; plus seeded bulk batches of random instants",
-    "Generated events (instants 1970..2100, any offset, us durations, nested JSON) are inserted singly/bulk/mixed and read back; every object handed in or out is then mutated and all reads must be unchanged. Samples the ~4e15 instant space with boundary bias; not exhaustive.",
+    "Generated events (local dates 1970..2100 at any offset, so instants down to 14 h before the UTC epoch; us durations, nested JSON) are inserted singly/bulk/mixed and read back; every object handed in or out is then mutated and all reads must be unchanged; one batch of 10 500 (thorough 70 000) events per SQL backend. Samples the ~4e15 instant space with boundary bias; not exhaustive.",
     "Only id-less insertion; JSON without NaN/Inf; stores on tmpfs files; trusts datetime arithmetic.",
 )
 add(
@@ -38,7 +38,7 @@ add(
     "C03",
     PBT + "a brute-force interval oracle with the property's 2 ms edge band (MUST / MAY / NEVER sets), on all three backends",
     "Generated bucket contents (nested/overlapping/zero-length/24 h events) and windows (open-ended, zero-width, sub-ms, any offset) with limits; both directions checked (nothing missing, nothing extra), order, limit prefix, count band, clip shape.",
-    "Windows within ~100 s of the base instant, <= 10 events; 2 ms band and 24 h cap from the property.",
+    "Windows within ~100 s of the base instant (or of any event edge), <= 10 events plus a short history of re-timings; base instants incl. the hours before the UTC epoch; 2 ms band and 24 h cap from the property.",
 )
 add(
     "C04",
@@ -62,7 +62,7 @@ add(
     "C08",
     PBT + "an integer-microsecond statement of the hull rule and its left fold; plus exhaustive enumeration of a small scope (all lists of <= 3 events on a tiny grid x all pulsetimes)",
     "Pairs/lists in any order with overlaps, ties, zero/negative durations and pulsetimes constructed to sit exactly on the boundary; iff-direction of mergeability, result shape, fold equality, normal form, idempotence, coverage.",
-    "Pulsetime is an integer number of microseconds; ms-grid timestamps.",
+    "Pulsetime is an integer number of microseconds (C07 also uses pulsetimes that are not); ms-grid timestamps.",
 )
 add(
     "C09",
@@ -115,8 +115,8 @@ add(
 add(
     "C20",
     PBT + "a reference dict overlay, with tomllib validating the harness's TOML writer, for existing and absent user files",
-    "Default/user trees up to three tables deep with type changes, arrays, comments; overlay equality (type-sensitive), user file bytes unchanged, absent-file path stable over three loads.",
-    "No arrays of tables / inline tables / multi-line values / table-scalar conflicts.",
+    "Default/user trees up to three tables deep with type changes, table<->value conflicts, arrays, comments, sections in any order, inline tables, multi-line strings; overlay equality (type-sensitive), user file bytes unchanged, absent-file path stable over three loads, the user editing the (existing or generated) file between loads, XDG_CONFIG_HOME set but empty.",
+    "No arrays of tables; multi-line strings only with an existing user file; documents that tomlkit itself refuses to parse are set aside and counted.",
 )
 
 add(
@@ -129,13 +129,13 @@ add(
 add(
     "C14",
     PBT + "a content-preservation oracle over generated legacy databases written through the legacy backend at its default location, in both profiles",
-    "Legacy stores with unicode ids, names, nested data, arbitrary instants and up to 300 events per bucket are migrated by constructing the default SQLite store; buckets, metadata and the event multiset must be preserved and the legacy file untouched (rows and bytes).",
+    "Legacy stores with unicode ids, names, nested data, arbitrary instants, offset-less creation times and up to 1300 (thorough: 70 000) events per bucket are migrated by constructing the default SQLite store - in this process or in a child process that reads everything and exits, the next process judging -, under several local time zones and with stale files in the data directory; buckets, metadata and the event multiset must be preserved and the legacy file untouched (rows and bytes).",
     "Event ids may be renumbered; one migration per process at a time.",
 )
 add(
     "C18",
-    "fault injection with a controlled clock over Hypothesis-generated write histories (module-level datetime rebinding + second-connection observer); thorough adds real-time child processes",
-    "For every event write issued >= 11 s (fake clock) after the latest flush the write must be visible through a second connection when it returns; inter-arrival times from bursts to days; thorough confirms with 16 real 11-12 s sleeps and no patching.",
+    "fault injection with a controlled clock over Hypothesis-generated write histories (module-level datetime rebinding + second-connection observer); plus real-time child processes (4 in quick, 16 in thorough)",
+    "For every event write issued >= 11 s (controlled clock handing out naive local time; epochs 2001/2023/2096; histories that cross the end of daylight saving; a second store alive in the same process) after the latest flush the write must be visible through a second connection when it returns; inter-arrival times from bursts to days; real 11-12 s sleeps without any patching confirm it (4 children in quick, 16 in thorough).",
     "The store must read the clock through its module's `datetime` (asserted; else exit 2); advances in (9, 11) s are not generated; bulk calls carry id-less events only.",
     category="fault_enumeration",
 )
@@ -185,11 +185,9 @@ def main():
             }
         ],
         "checks": checks,
-        "notes": "Every check: ./check <ID> quick|thorough; VERIF_SEED selects the run, VERIF_JOBS the worker count, VERIF_SCALE multiplies case counts, VERIF_REPO the tree under test (default /repo). Exit 0 held / 1 VIOLATION / 2 harness error. See DESIGN.md.",
+        "notes": "Every check: ./check <ID> quick|thorough; VERIF_SEED selects the run, VERIF_JOBS the worker count, VERIF_SCALE multiplies case counts, VERIF_REPO the tree under test (default /repo). Exit 0 held / 1 VIOLATION / 2 harness error. The process environment is varied per worker and deterministically: every second worker runs under a local time zone other than the ambient one (POSIX TZ strings, two with daylight saving), every fourth imports the tree with assert statements compiled out (as python -O does), every fourth has the library's loggers enabled down to DEBUG, PYTHONHASHSEED follows VERIF_SEED; a failing case's zone and configuration are stored in its replay file. See DESIGN.md (section 9 for what was built, 10 for the defects repaired in /repo, 12 for the sensitivity experiments).",
         "not_applicable": na,
     }
-    if not na:
-        del doc["not_applicable"]
     with open(os.path.join(V, "MANIFEST.json"), "w") as f:
         json.dump(doc, f, indent=1)
         f.write("\n")
